@@ -586,6 +586,23 @@ def rule_track_distances(ctx, R):
                            to.fields[-1:] == ('1',)) or \
                     (m['candidate_observation'].has_place(root=('param', 1), field='observations') and
                      m['track_observation'].has_place(root=('param', 2), field='observations'))
+                if not pair_ok:
+                    # nested form (`left.iter().flat_map(|l| right.iter().map(move |r| ..))`, nested loops): each
+                    # observation belongs to an iteration over the observations of its own track
+                    from lib import elem_key
+                    raw = dict(zip(mq[0].extra['fields'], [x for x in ebc.arg(mc, 1).walk() if x.kind == 'agg' and
+                                                            x.name.endswith('MetricQuery::MetricQuery')][0].args)) \
+                        if any(x.kind == 'agg' and x.name.endswith('MetricQuery::MetricQuery')
+                               for x in ebc.arg(mc, 1).walk()) else None
+                    if raw is not None:
+                        kc = elem_key(F, b, cb, raw['candidate_observation'])
+                        kt = elem_key(F, b, cb, raw['track_observation'])
+
+                        def over(ch, k):
+                            return ch is not None and any(p_.root == ('param', k) and 'observations' in p_.fields
+                                                          for p_ in ch.places())
+                        pair_ok = kc[0] is not None and kt[0] is not None and kc[0] != kt[0] and \
+                            over(kc[1], 1) and not over(kc[1], 2) and over(kt[1], 2) and not over(kt[1], 1)
                 okq = ca.kind == 'place' and ca.root == ('param', 1) and not ca.fields and ta_.kind == 'place' and \
                     ta_.root == ('param', 2) and not ta_.fields and pair_ok
                 detail = 'candidate=(%r,%r) track=(%r,%r)' % (ca, co, ta_, to)
